@@ -68,34 +68,70 @@ mod verif_kani_token {
         p_ok && k_ok
     }
 
-    // ---- C09 / C10: every string up to N bytes is parsed without panicking, and Ok(t) ==> token_wf(t) ----
-    fn total_parse<const N: usize>() {
-        let bytes: [u8; N] = kani::any();
+    // ---- C09 / C10: every ASCII string up to N bytes, and every such string with the two-byte character
+    // 'é' at any offset, is parsed without panicking, and Ok(t) ==> token_wf(t).   (BOUNDED by N.)
+    // Strings are built with from_utf8_unchecked from bytes that are valid UTF-8 by construction:
+    // std's UTF-8 validation of symbolic bytes is what makes CBMC blow up, not the parser.
+    fn total_parse<const N: usize>(with_multibyte: bool) {
+        let mut bytes: [u8; N] = kani::any();
         let len: usize = kani::any();
         kani::assume(len <= N);
-        if let Ok(s) = std::str::from_utf8(&bytes[..len]) {
-            kani::cover!(len == N);
-            match HandRangeToken::from_str(s) {
-                Ok(t) => { kani::cover!(true); assert!(token_wf(&t)); }
-                Err(()) => {}
-            }
+        let mut i = 0;
+        while i < N { kani::assume(bytes[i] < 128); i += 1; }
+        if with_multibyte {
+            let k: usize = kani::any();
+            kani::assume(k < N && k + 1 < len);
+            bytes[k] = 0xC3;
+            bytes[k + 1] = 0xA9;
+        }
+        let s = unsafe { std::str::from_utf8_unchecked(&bytes[..len]) };
+        kani::cover!(len == N);
+        match HandRangeToken::from_str(s) {
+            Ok(t) => { assert!(token_wf(&t)); }
+            Err(()) => {}
         }
     }
 
     #[kani::proof]
     #[kani::unwind(8)]
     #[kani::stub(parse_probability, stub_parse_probability)]
-    fn tok_total_parse_6() { total_parse::<6>(); }
+    fn tok_total_parse_6() { total_parse::<6>(false); }
+
+    #[kani::proof]
+    #[kani::unwind(8)]
+    #[kani::stub(parse_probability, stub_parse_probability)]
+    fn tok_total_parse_6_multibyte() { total_parse::<6>(true); }
 
     #[kani::proof]
     #[kani::unwind(11)]
     #[kani::stub(parse_probability, stub_parse_probability)]
-    fn tok_total_parse_9() { total_parse::<9>(); }
+    fn tok_total_parse_9() { total_parse::<9>(false); }
+
+    #[kani::proof]
+    #[kani::unwind(11)]
+    #[kani::stub(parse_probability, stub_parse_probability)]
+    fn tok_total_parse_9_multibyte() { total_parse::<9>(true); }
 
     #[kani::proof]
     #[kani::unwind(14)]
     #[kani::stub(parse_probability, stub_parse_probability)]
-    fn tok_total_parse_12() { total_parse::<12>(); }
+    fn tok_total_parse_12() { total_parse::<12>(false); }
+
+    #[kani::proof]
+    #[kani::unwind(14)]
+    #[kani::stub(parse_probability, stub_parse_probability)]
+    fn tok_total_parse_12_multibyte() { total_parse::<12>(true); }
+
+    // Ok-reachability: some string of each length class parses (guards against a vacuous Ok branch)
+    #[kani::proof]
+    #[kani::unwind(8)]
+    #[kani::stub(parse_probability, stub_parse_probability)]
+    fn tok_ok_reachable() {
+        let s = [b'A', b'K', b's', b'+', b':', b'0'];
+        let r = HandRangeToken::from_str(unsafe { std::str::from_utf8_unchecked(&s) });
+        kani::cover!(r.is_ok());
+        assert!(r.is_ok());
+    }
 
     // ---- C05: every well-formed token text (without weight) parses to the value it denotes, weight 1 ----
     #[kani::proof]
@@ -105,17 +141,17 @@ mod verif_kani_token {
         let (a, b) = (any_rank(), any_rank());
         // 'XX'
         let s = [RANK_CH[a as usize], RANK_CH[a as usize]];
-        assert!(HandRangeToken::from_str(std::str::from_utf8(&s).unwrap())
+        assert!(HandRangeToken::from_str(unsafe { std::str::from_utf8_unchecked(&s) })
             == Ok(HandRangeToken::new(HandRangeTokenKind::SingleRankPair(RankPair::Pocket(rank_of(a))), 1.0)));
         // 'XX+'
         let s = [RANK_CH[a as usize], RANK_CH[a as usize], b'+'];
-        assert!(HandRangeToken::from_str(std::str::from_utf8(&s).unwrap())
+        assert!(HandRangeToken::from_str(unsafe { std::str::from_utf8_unchecked(&s) })
             == Ok(HandRangeToken::new(HandRangeTokenKind::BottomClosedRankPairRange(RankPair::Pocket(rank_of(a))), 1.0)));
         // 'XX-YY' (X at least as strong as Y)
         kani::assume(a <= b);
         kani::cover!(a < b);
         let s = [RANK_CH[a as usize], RANK_CH[a as usize], b'-', RANK_CH[b as usize], RANK_CH[b as usize]];
-        assert!(HandRangeToken::from_str(std::str::from_utf8(&s).unwrap())
+        assert!(HandRangeToken::from_str(unsafe { std::str::from_utf8_unchecked(&s) })
             == Ok(HandRangeToken::new(HandRangeTokenKind::DoubleClosedRankPairRange(RankPair::Pocket(rank_of(a)), rank_of(b)), 1.0)));
     }
 
@@ -131,14 +167,14 @@ mod verif_kani_token {
         kani::cover!(suited && k < e);
         // 'HKs' / 'HKo'
         let s = [RANK_CH[h as usize], RANK_CH[k as usize], so];
-        assert!(HandRangeToken::from_str(std::str::from_utf8(&s).unwrap()) == Ok(HandRangeToken::new(HandRangeTokenKind::SingleRankPair(mk(h, k)), 1.0)));
+        assert!(HandRangeToken::from_str(unsafe { std::str::from_utf8_unchecked(&s) }) == Ok(HandRangeToken::new(HandRangeTokenKind::SingleRankPair(mk(h, k)), 1.0)));
         // 'HKs+'
         let s = [RANK_CH[h as usize], RANK_CH[k as usize], so, b'+'];
-        assert!(HandRangeToken::from_str(std::str::from_utf8(&s).unwrap()) == Ok(HandRangeToken::new(HandRangeTokenKind::BottomClosedRankPairRange(mk(h, k)), 1.0)));
+        assert!(HandRangeToken::from_str(unsafe { std::str::from_utf8_unchecked(&s) }) == Ok(HandRangeToken::new(HandRangeTokenKind::BottomClosedRankPairRange(mk(h, k)), 1.0)));
         // 'HKs-HEs'
         kani::assume(k < e);
         let s = [RANK_CH[h as usize], RANK_CH[k as usize], so, b'-', RANK_CH[h as usize], RANK_CH[e as usize], so];
-        assert!(HandRangeToken::from_str(std::str::from_utf8(&s).unwrap())
+        assert!(HandRangeToken::from_str(unsafe { std::str::from_utf8_unchecked(&s) })
             == Ok(HandRangeToken::new(HandRangeTokenKind::DoubleClosedRankPairRange(mk(h, k), rank_of(e)), 1.0)));
     }
 
@@ -151,7 +187,7 @@ mod verif_kani_token {
         kani::cover!(r1 > r2);
         let s = [RANK_CH[r1 as usize], SUIT_CH[s1 as usize], RANK_CH[r2 as usize], SUIT_CH[s2 as usize]];
         let want = CardPair::new(Card::new(rank_of(r1), suit_of(s1)), Card::new(rank_of(r2), suit_of(s2)));
-        assert!(HandRangeToken::from_str(std::str::from_utf8(&s).unwrap()) == Ok(HandRangeToken::new(HandRangeTokenKind::SingleCardPair(want), 1.0)));
+        assert!(HandRangeToken::from_str(unsafe { std::str::from_utf8_unchecked(&s) }) == Ok(HandRangeToken::new(HandRangeTokenKind::SingleCardPair(want), 1.0)));
     }
 
     // ---- C05 / C10: ':weight' is carried (0 and 1 exactly; above 1 rejected) ----
@@ -164,8 +200,8 @@ mod verif_kani_token {
         kani::assume(w == b'0' || w == b'1');
         let s = [RANK_CH[a as usize], RANK_CH[a as usize], b':', w];
         let want = if w == b'0' { 0.0 } else { 1.0 };
-        assert!(HandRangeToken::from_str(std::str::from_utf8(&s).unwrap()) == Ok(HandRangeToken::new(HandRangeTokenKind::SingleRankPair(RankPair::Pocket(rank_of(a))), want)));
+        assert!(HandRangeToken::from_str(unsafe { std::str::from_utf8_unchecked(&s) }) == Ok(HandRangeToken::new(HandRangeTokenKind::SingleRankPair(RankPair::Pocket(rank_of(a))), want)));
         let s = [RANK_CH[a as usize], RANK_CH[a as usize], b':', b'1', b'.', b'5'];
-        assert!(HandRangeToken::from_str(std::str::from_utf8(&s).unwrap()).is_err());
+        assert!(HandRangeToken::from_str(unsafe { std::str::from_utf8_unchecked(&s) }).is_err());
     }
 }
